@@ -6,6 +6,7 @@ package main
 import (
 	"bytes"
 	"fmt"
+	"math/big"
 	mrand "math/rand"
 	"strings"
 
@@ -24,6 +25,12 @@ type secrets map[string][]byte
 // failAt > 0: the failAt-th read of the OS random source fails during the scenario (fault dimension)
 var failAt int64
 
+// scriptAt > 0: the scriptAt-th read of the OS random source returns scriptByte repeated (a degenerate value: the
+// exponent 0, or one above the bound that has to be drawn again); whatever the client does then, no secret may
+// come from a reproducible generator
+var scriptAt int64
+var scriptByte byte
+
 // keyExchange runs one exchange under the scheduler (virtual clock = the same in every run) with the
 // process-global math/rand seeded with s; crypto/rand is the real one.
 func keyExchange(s int64, clock int64, extraClient bool) (secrets, string) {
@@ -39,10 +46,11 @@ func keyExchange(s int64, clock int64, extraClient bool) (secrets, string) {
 		}
 	}
 	vcrand.FailAt = failAt
+	vcrand.ScriptAt, vcrand.Script = scriptAt, scriptByte
 	w := sess.Run(sc, nil, false)
-	vcrand.FailAt = 0
-	if failAt > 0 && (w.ConnErr != nil || w.ConnPanic != "" || !w.ConnReturned) {
-		return secrets{}, "" // refusing to go on without the OS source is fine
+	vcrand.FailAt, vcrand.ScriptAt = 0, 0
+	if (failAt > 0 || scriptAt > 0) && (w.ConnErr != nil || w.ConnPanic != "" || !w.ConnReturned || w.Auth == nil || w.Auth.GB == nil || !w.Auth.Done) {
+		return secrets{}, "" // refusing to go on without the OS source / with a degenerate value from it is fine
 	}
 	if w.Auth == nil || w.Auth.GB == nil || w.ConnErr != nil || w.ConnPanic != "" {
 		return nil, fmt.Sprintf("exchange failed: err=%v panic=%s problems=%v", w.ConnErr, w.ConnPanic, w.Auth.Problems)
@@ -65,6 +73,20 @@ func srpWithServerRandom(n int) func(s int64, clock int64, extraClient bool) (se
 	}
 }
 
+// fromScript: is v exactly what the scripted OS read (scriptByte repeated) turns into for this secret?
+func fromScript(name string, v []byte) bool {
+	all := func(n int) []byte { return bytes.Repeat([]byte{scriptByte}, n) }
+	p := hs.HexBig(hs.TelegramPrime)
+	exp := new(big.Int).SetBytes(all(256))
+	switch name {
+	case "nonce", "new_nonce":
+		return bytes.Equal(v, all(len(v)))
+	case "dh_exponent(g_b)", "srp_ephemeral(A)":
+		return new(big.Int).SetBytes(v).Cmp(new(big.Int).Exp(big.NewInt(3), exp, p)) == 0
+	}
+	return false
+}
+
 func srp(s int64, clock int64, extraClient bool) (secrets, string) {
 	mrand.Seed(s)
 	vclock.Pin(clock)
@@ -76,17 +98,18 @@ func srp(s int64, clock int64, extraClient bool) (secrets, string) {
 	B := make([]byte, 256)
 	B[0], B[255] = 0x40, 7
 	vcrand.FailAt = failAt
-	defer func() { vcrand.FailAt = 0 }()
+	vcrand.ScriptAt, vcrand.Script = scriptAt, scriptByte
+	defer func() { vcrand.FailAt, vcrand.ScriptAt = 0, 0 }()
 	var res telegram.InputCheckPasswordSRP
 	var err error
 	if p, _, _ := vr.Try(func() {
 		res, err = telegram.GetInputCheckPassword("pw", &telegram.AccountPassword{SRPB: B, SRPID: 1, SecureRandom: secureRandom,
 			CurrentAlgo: &telegram.PasswordKdfAlgoSHA256SHA256PBKDF2HMACSHA512iter100000SHA256ModPow{Salt1: []byte("s1"), Salt2: []byte("s2"), G: 3, P: p.Bytes()}})
-	}); p && failAt > 0 {
+	}); p && (failAt > 0 || scriptAt > 0) {
 		return secrets{}, ""
 	}
 	if err != nil {
-		if failAt > 0 {
+		if failAt > 0 || scriptAt > 0 {
 			return secrets{}, ""
 		}
 		return nil, err.Error()
@@ -100,7 +123,7 @@ func srp(s int64, clock int64, extraClient bool) (secrets, string) {
 
 func main() {
 	run := vr.New("C19", "exploration")
-	run.Rule("environment alphabet: global math/rand seed in {1, 2, 0x5eed} x pinned clock in {T0, T0+1s} x scenario {key exchange, key exchange after creating another client, SRP answer, SRP answer after creating a client, SRP answer to a challenge that carries 8 / 256 bytes of server-chosen secure_random} x fault {none, the 1st / 2nd / 3rd read of the OS random source fails}; each environment is run twice and all runs are compared pairwise; a secret that repeats is a violation, and so is any 8-byte window of a nonce that occurs twice anywhere in the 12 consecutive exchanges of a group; non-trivial = distinct (scenario, environment, secret) comparison")
+	run.Rule("environment alphabet: global math/rand seed in {1, 2, 0x5eed} x pinned clock in {T0, T0+1s} x scenario {key exchange, key exchange after creating another client, SRP answer, SRP answer after creating a client, SRP answer to a challenge that carries 8 / 256 bytes of server-chosen secure_random} x fault {none, the 1st / 2nd / 3rd read of the OS random source fails, or returns 00..00, or returns ff..ff}; each environment is run twice and all runs are compared pairwise; a secret that repeats is a violation, and so is any 8-byte window of a nonce that occurs twice anywhere in the 12 consecutive exchanges of a group; non-trivial = distinct (scenario, environment, secret) comparison")
 	run.Assume("bytes from the OS source differ between runs with probability 1 - 2^-128, so a repeat is a reproducible derivation, not chance",
 		"LIMIT: this decides the property for the draw sites these drivers execute and for the reproducible inputs that are pinned (global math/rand state, the clock); a generator seeded from an input that is not pinned (pid, hostname) would pass, and paths no driver executes are not covered - provenance on all paths is a data-flow question outside this technique")
 	seeds := []int64{1, 2, 0x5eed}
@@ -115,8 +138,16 @@ func main() {
 		xtra bool
 	}{{"key-exchange", keyExchange, false}, {"key-exchange-after-new-client", keyExchange, true}, {"srp", srp, false}, {"srp-after-new-client", srp, true},
 		{"srp-with-8-byte-secure_random-from-the-server", srpWithServerRandom(8), false}, {"srp-with-256-byte-secure_random-from-the-server", srpWithServerRandom(256), false}} {
-		for _, fa := range []int64{0, 1, 2, 3} {
-			failAt = fa
+		for _, fa := range []int64{0, 1, 2, 3, 101, 102, 103, 201, 202, 203} {
+			failAt, scriptAt = 0, 0
+			switch {
+			case fa >= 200:
+				scriptAt, scriptByte = fa-200, 0xff // the n-th read returns ff..ff
+			case fa >= 100:
+				scriptAt, scriptByte = fa-100, 0x00 // the n-th read returns 00..00
+			default:
+				failAt = fa
+			}
 			if fa > 0 && scn.xtra {
 				continue
 			}
@@ -144,6 +175,9 @@ func main() {
 				for _, name := range []string{"nonce", "new_nonce"} {
 					v := o.sec[name]
 					for off := 0; off+8 <= len(v); off++ {
+						if scriptAt > 0 && fromScript(name, v) {
+							break
+						}
 						k := string(v[off : off+8])
 						run.Eval(fmt.Sprintf("%s|fail=%d|window %s[%d:%d] of run %d", scn.name, fa, name, off, off+8, i), true)
 						if w, dup := seenWin[k]; dup {
@@ -159,6 +193,9 @@ func main() {
 			for i := 0; i < len(all); i++ {
 				for j := i + 1; j < len(all); j++ {
 					for name, v := range all[i].sec {
+						if scriptAt > 0 && fromScript(name, v) {
+							continue // this value is what the scripted OS read itself gives: reproducible by construction
+						}
 						id := fmt.Sprintf("%s|%s|%s vs %s", scn.name, name, all[i].env, all[j].env)
 						run.Eval(id, true)
 						if bytes.Equal(v, all[j].sec[name]) {
@@ -172,7 +209,12 @@ func main() {
 							case ei[0] != ej[0]:
 								same = "different-seed-different-clock"
 							}
-							if fa > 0 {
+							switch {
+							case fa >= 200:
+								same += fmt.Sprintf("|os-source-read-%d-returns-ff", fa-200)
+							case fa >= 100:
+								same += fmt.Sprintf("|os-source-read-%d-returns-00", fa-100)
+							case fa > 0:
 								same += fmt.Sprintf("|os-source-read-%d-fails", fa)
 							}
 							run.Violation(fmt.Sprintf("repeats|%s|%s|%s", scn.name, name, same),
@@ -182,7 +224,7 @@ func main() {
 				}
 			}
 		}
-		failAt = 0
+		failAt, scriptAt = 0, 0
 	}
 	run.Sample(map[string]any{"scenario": "key-exchange", "environment": "math/rand seeded with 1, clock pinned to T0", "compared": "nonce, new_nonce, g_b of run 0 vs run 1"})
 	run.Finish()
